@@ -10,7 +10,11 @@ package v2
 // containers and objects; then left intact or hit by one single-field mutation of the
 // signed body, a bit flip in the wire encoding of the body, or a signature / key / scheme
 // mutation.  Every token is shown to the real acl/v2.Service verification entry points
-// the way the object server calls them.
+// the way the object server calls them.  A share of the tokens then lives on: the same
+// message is presented again to the same service instance (so whatever the service has
+// memoised about it is in play) for the same or another request, after chain time has
+// advanced within the epoch (V2: nothing purges the caches) and/or after epoch ticks
+// (caches purged as the node wires them).
 //
 // Oracle: vf30Ref* recompute, from the token message alone and with standard-library
 // crypto only, whether the token is correctly signed by its issuer, within its validity
@@ -414,7 +418,7 @@ var vf30SampleTick int
 func TestVerif_C30(t *testing.T) {
 	r := verifkit.Start(t, "C30", "exploration")
 	defer r.Finish()
-	r.SetRule("case = token family {V1 object session, V2 session (plain or delegated once), bearer} x ECDSA scheme x lifetime claims drawn from current-2..current+2 epochs (seconds for V2, chain time with millisecond offsets) x verb (all) x container (same/foreign/wildcard) x objects (none/listed/foreign) x request (verb, container, object) x mutation {none, one signed field changed, one bit of the body's wire encoding flipped, signature/key/scheme changed}; distinct = (family, scheme, lifetime class, token verb, request verb, container/object relation, mutation, reference verdict, code verdict)")
+	r.SetRule("case = token family {V1 object session, V2 session (plain or delegated once), bearer} x ECDSA scheme x lifetime claims drawn from current-2..current+2 epochs (seconds for V2, chain time with millisecond offsets) x verb (all) x container (same/foreign/wildcard) x objects (none/listed/foreign) x request (verb, container, object) x mutation {none, one signed field changed, one bit of the body's wire encoding flipped, signature/key/scheme changed} x life {presented once; presented again 2-4 times to the same service with the same/another request, V2: chain time advanced by 0ms..1h within the epoch or across an epoch tick, V1/bearer: across epoch ticks}; every presentation is judged separately; distinct = (family, scheme, lifetime class, token verb, request verb, container/object relation, mutation, reference verdict, code verdict)")
 	r.Assume("token check caches are purged on every epoch change as cmd/neofs-node wires them (ResetTokenCheckCache + ObjectSessionsCache.ResetCache)")
 	r.Assume("a V1 token verb covers its own operation, HEAD under GET/RANGE/DELETE tokens and SEARCH under DELETE tokens; the ID of a tombstone being PUT is not matched against the token's object list")
 	r.Assume("V2 lifetime claims (seconds) are compared with millisecond chain time at second granularity: only misses by a whole second count")
@@ -570,7 +574,7 @@ func TestVerif_C30(t *testing.T) {
 			}
 			verdictV1(r, &svc, w, setEpoch, rng, ci, m, tokVerb, scheme, mut, cnrs, objs, verdict)
 		case 1: // ---------------- V2 session
-			vf30CaseV2(r, &svc, w, rng, ci, pool, issuer, scheme, cnrs, verdict)
+			vf30CaseV2(r, &svc, w, setEpoch, rng, ci, pool, issuer, scheme, cnrs, verdict)
 		default: // ---------------- bearer
 			vf30CaseBearer(r, &svc, w, setEpoch, rng, ci, pool, issuer, scheme, cnrs, verdict)
 		}
@@ -579,6 +583,12 @@ func TestVerif_C30(t *testing.T) {
 		if r.Counter(fam+"_honoured_valid") == 0 || r.Counter(fam+"_rejected_invalid") == 0 {
 			r.Inconclusive("family " + fam + ": honoured or rejected tokens were never observed")
 		}
+		if r.Counter(fam+"_represented_honoured_valid") == 0 || r.Counter(fam+"_represented_rejected_invalid_after_first_honoured") == 0 {
+			r.Inconclusive("family " + fam + ": a token honoured at first and later, presented again, no longer valid for the request was never observed")
+		}
+	}
+	if r.Violations() == 0 && r.Counter("v2_rejected_once_chain_time_passed_exp_within_the_epoch") == 0 {
+		r.Inconclusive("no V2 token was presented valid and then again after chain time passed its exp within the same epoch")
 	}
 }
 
@@ -596,28 +606,32 @@ type vf30Verdict func(family, mut string, honoured, refOK bool, why string, sig 
 func verdictV1(r *verifkit.Run, svc *Service, w *vf30World, setEpoch func(uint64), rng *rand.Rand, ci int, m *protosession.SessionToken,
 	tokVerb session.ObjectVerb, scheme int, mut string, cnrs []cid.ID, objs []oid.ID, verdict vf30Verdict) {
 	setEpoch(vf30Epoch)
-	q := vf30V1Req{verb: session.ObjectVerb(1 + rng.IntN(6)), cnr: cnrs[rng.IntN(2)]}
-	if rng.IntN(3) != 0 { // mostly aim at the token's own scope
-		if c := m.GetBody().GetObject().GetTarget().GetContainer().GetValue(); len(c) == 32 {
-			copy(q.cnr[:], c)
+	mkReq := func() vf30V1Req {
+		q := vf30V1Req{verb: session.ObjectVerb(1 + rng.IntN(6)), cnr: cnrs[rng.IntN(2)]}
+		if rng.IntN(3) != 0 { // mostly aim at the token's own scope
+			if c := m.GetBody().GetObject().GetTarget().GetContainer().GetValue(); len(c) == 32 {
+				copy(q.cnr[:], c)
+			}
+			if rng.IntN(2) == 0 && tokVerb >= 1 && tokVerb <= 6 {
+				q.verb = tokVerb
+			}
 		}
-		if rng.IntN(2) == 0 && tokVerb >= 1 && tokVerb <= 6 {
-			q.verb = tokVerb
+		switch rng.IntN(4) {
+		case 0:
+		case 1:
+			q.obj = objs[2] // never listed by an untouched token
+		default:
+			q.obj = objs[rng.IntN(2)]
 		}
+		if q.verb == session.VerbObjectSearch {
+			q.obj = oid.ID{}
+		}
+		if q.verb == session.VerbObjectDelete && rng.IntN(3) == 0 {
+			q.tombstone = true // PUT of a tombstone object is checked with the DELETE verb
+		}
+		return q
 	}
-	switch rng.IntN(4) {
-	case 0:
-	case 1:
-		q.obj = objs[2] // never listed by an untouched token
-	default:
-		q.obj = objs[rng.IntN(2)]
-	}
-	if q.verb == session.VerbObjectSearch {
-		q.obj = oid.ID{}
-	}
-	if q.verb == session.VerbObjectDelete && rng.IntN(3) == 0 {
-		q.tombstone = true // PUT of a tombstone object is checked with the DELETE verb
-	}
+	q := mkReq()
 	desc := map[string]any{"case": ci, "family": "v1", "scheme": scheme, "mutation": mut, "token_hex": hex.EncodeToString(vf30Enc(m)),
 		"epoch": w.epoch, "req_verb": int(q.verb), "req_container": q.cnr.String(), "req_object": q.obj.String(), "req_is_tombstone_put": q.tombstone}
 	var err error
@@ -671,9 +685,84 @@ func verdictV1(r *verifkit.Run, svc *Service, w *vf30World, setEpoch func(uint64
 		}
 		setEpoch(vf30Epoch)
 	}
+
+	// life of the token: the SAME message is presented again to the same service, with
+	// other requests and/or after epoch ticks (which purge the caches, as the node wires
+	// them).  Every presentation is judged on its own by the reference: what an earlier
+	// presentation of the token yielded must not matter.
+	if rng.IntN(3) == 0 {
+		first := vf30Word(err == nil, "honoured", "rejected")
+		ticked := false
+		for step, steps := 0, 2+rng.IntN(2); step < steps; step++ {
+			q2, how := q, "same-request"
+			switch rng.IntN(3) {
+			case 0:
+				q2, how = mkReq(), "other-request"
+			case 1:
+				setEpoch(w.epoch + 1 + uint64(rng.IntN(2)))
+				ticked, how = true, "epoch-tick"
+			default:
+				q2, how = mkReq(), "other-request+epoch-tick"
+				setEpoch(w.epoch + 1)
+				ticked = true
+			}
+			d2 := map[string]any{"case": ci, "family": "v1", "scheme": scheme, "mutation": mut, "token_hex": desc["token_hex"], "life_step": step + 1,
+				"first_presentation": desc, "epoch": w.epoch, "req_verb": int(q2.verb), "req_container": q2.cnr.String(), "req_object": q2.obj.String(), "req_is_tombstone_put": q2.tombstone}
+			var errN error
+			if r.Guard(d2, func() { _, errN = svc.VerifySessionV1TokenMessage(m, q2.verb, q2.cnr, q2.obj) }) {
+				break
+			}
+			okN, whyN := vf30RefV1(m, w.epoch, q2)
+			key := fmt.Sprintf("honoured-invalid|v1|%s|re-presented|first-time=%s|%s", whyN, first, vf30Word(ticked, "after-epoch-tick", "same-epoch"))
+			if whyN == "object" { // same shape as on a first presentation
+				key = fmt.Sprintf("honoured-invalid|v1|object|token-verb=%d|req-verb=%d", m.GetBody().GetObject().GetVerb(), q2.verb)
+			}
+			vf30LifeVerdict(r, "v1", key, fmt.Sprintf("%s|%s|%d|%d|%d", first, how, int64(w.epoch)-vf30Epoch, tokVerb, q2.verb), errN, okN, whyN, first, d2)
+		}
+		setEpoch(vf30Epoch)
+	}
 }
 
-func vf30CaseV2(r *verifkit.Run, svc *Service, w *vf30World, rng *rand.Rand, ci int, pool []vf30Key, issuer vf30Key, scheme int, cnrs []cid.ID, verdict vf30Verdict) {
+func vf30Word(c bool, yes, no string) string {
+	if c {
+		return yes
+	}
+	return no
+}
+
+// vf30LifeVerdict judges one re-presentation of a token that the service has seen before.
+func vf30LifeVerdict(r *verifkit.Run, family, vioKey, sig string, codeErr error, refOK bool, why, first string, desc map[string]any) {
+	honoured := codeErr == nil
+	r.Eval(1)
+	r.Distinct(fmt.Sprintf("%s-life|%t|%t|%s|%s", family, honoured, refOK, why, sig))
+	r.Count(family+"_represented", 1)
+	if codeErr != nil {
+		desc["code_error"] = codeErr.Error()
+	}
+	switch {
+	case honoured && !refOK:
+		r.Violation(vioKey, fmt.Sprintf("%s token presented again to the same service is honoured although the reference finds it invalid for this request (%s); its first presentation was %s", family, why, first), desc)
+	case honoured:
+		r.Count(family+"_represented_honoured_valid", 1)
+		if first == "rejected" {
+			r.Count(family+"_represented_honoured_valid_after_first_rejection", 1)
+		}
+	case refOK:
+		r.Count(family+"_represented_rejected_though_reference_valid", 1)
+		if first == "rejected" {
+			r.Count(family+"_observed_still_rejected_when_reference_valid_after_first_rejection", 1)
+		}
+	default:
+		r.Count(family+"_represented_rejected_invalid", 1)
+		if first == "honoured" {
+			r.Count(family+"_represented_rejected_invalid_after_first_honoured", 1)
+			r.Seen(family+"_reasons_rejected_after_first_honoured", why)
+		}
+	}
+}
+
+func vf30CaseV2(r *verifkit.Run, svc *Service, w *vf30World, setEpoch func(uint64), rng *rand.Rand, ci int, pool []vf30Key, issuer vf30Key, scheme int, cnrs []cid.ID, verdict vf30Verdict) {
+	setEpoch(vf30Epoch)
 	sec := func(d int) time.Time { return vf30T0.Add(time.Duration(d) * time.Second) }
 	mk := func(iss vf30Key, subj user.ID, iat, nbf, exp int, ctxs map[int][]sessionv2.Verb, origin *sessionv2.Token, final bool) (*sessionv2.Token, error) {
 		var tok sessionv2.Token
@@ -850,6 +939,53 @@ func vf30CaseV2(r *verifkit.Run, svc *Service, w *vf30World, rng *rand.Rand, ci 
 			r.Count("v2_observed_honoured_less_than_1s_after_exp", 1)
 		}
 	}
+
+	// life of the token: the SAME message is presented again to the same service while
+	// chain time goes on - mostly within one epoch, i.e. with nothing purging the caches
+	// (V2 lifetimes are seconds, epochs are much longer), sometimes across an epoch tick -
+	// and with the same or another request.  Every presentation is judged on its own by
+	// the reference at the chain time of that presentation.
+	if rng.IntN(2) == 0 {
+		first := vf30Word(verr == nil, "honoured", "rejected")
+		ticked := false
+		for step, steps := 0, 2+rng.IntN(3); step < steps; step++ {
+			adv := []time.Duration{0, time.Millisecond, 499 * time.Millisecond, 500 * time.Millisecond, time.Second, time.Second, 2 * time.Second,
+				3 * time.Second, 5 * time.Second, time.Minute, time.Hour}[rng.IntN(11)]
+			w.now = w.now.Add(adv)
+			how := "same-request"
+			v2, c2 := reqVerb, reqCnr
+			if rng.IntN(3) == 0 {
+				v2, c2, how = sessionv2.Verb(1+rng.IntN(6)), cnrs[rng.IntN(2)], "other-request"
+			}
+			if rng.IntN(8) == 0 {
+				setEpoch(w.epoch + 1)
+				ticked = true
+				how += "+epoch-tick"
+			}
+			d2 := map[string]any{"case": ci, "family": "v2", "scheme": scheme, "mutation": mut, "delegated": delegated, "token_hex": desc["token_hex"], "life_step": step + 1,
+				"first_presentation": desc, "now_unix_ms": w.now.UnixMilli(), "epoch": w.epoch, "req_verb": int(v2), "req_container": c2.String()}
+			var errN error
+			if r.Guard(d2, func() { _, errN = svc.VerifySessionTokenMessage(m, v2, c2) }) {
+				break
+			}
+			okN, whyN := vf30RefV2(m, w.now, v2, c2)
+			key := fmt.Sprintf("honoured-invalid|v2|%s|re-presented|first-time=%s|%s", whyN, first, vf30Word(ticked, "after-epoch-tick", "same-epoch"))
+			class := "inside"
+			switch ms := w.now.UnixMilli(); {
+			case ms < int64(lt.GetNbf())*1000:
+				class = "before-nbf"
+			case ms > int64(lt.GetExp())*1000+999:
+				class = "after-exp"
+			case ms > int64(lt.GetExp())*1000:
+				class = "less-than-1s-after-exp"
+			}
+			vf30LifeVerdict(r, "v2", key, fmt.Sprintf("%s|%s|%s|%d|%t", first, how, class, v2, delegated), errN, okN, whyN, first, d2)
+			if !ticked && first == "honoured" && errN != nil && !okN && strings.HasPrefix(whyN, "lifetime") {
+				r.Count("v2_rejected_once_chain_time_passed_exp_within_the_epoch", 1)
+			}
+		}
+		setEpoch(vf30Epoch)
+	}
 	w.now = vf30T0
 }
 
@@ -973,6 +1109,49 @@ func vf30CaseBearer(r *verifkit.Run, svc *Service, w *vf30World, setEpoch func(u
 			r.Violation("honoured-invalid|bearer|lifetime|after-epoch-change", "bearer token honoured at exp+1 after the epoch change purged the caches", desc)
 		} else {
 			r.Count("bearer_rejected_after_epoch_passed_exp", 1)
+		}
+		setEpoch(vf30Epoch)
+	}
+
+	// life of the token: the SAME message again on the same service, for other requests
+	// and/or after epoch ticks (which purge the caches, as the node wires them)
+	if rng.IntN(3) == 0 {
+		first := vf30Word(err == nil, "honoured", "rejected")
+		ticked := false
+		for step, steps := 0, 2+rng.IntN(2); step < steps; step++ {
+			how := "same-request"
+			c2, o2, s2 := reqCnr, owner, sender
+			if rng.IntN(2) == 0 {
+				how = "other-request"
+				switch rng.IntN(3) {
+				case 0:
+					c2 = cnrs[rng.IntN(2)]
+				case 1:
+					o2 = pool[rng.IntN(len(pool))].id
+				default:
+					s2 = pool[rng.IntN(len(pool))].id
+				}
+			}
+			if how == "same-request" || rng.IntN(3) == 0 {
+				setEpoch(w.epoch + 1 + uint64(rng.IntN(2)))
+				ticked = true
+				how += "+epoch-tick"
+			}
+			d2 := map[string]any{"case": ci, "family": "bearer", "scheme": scheme, "mutation": mut, "token_hex": desc["token_hex"], "life_step": step + 1,
+				"first_presentation": desc, "epoch": w.epoch, "req_container": c2.String(), "container_owner": o2.String(), "sender": s2.String()}
+			var errN error
+			if r.Guard(d2, func() {
+				var btN bearer.Token
+				btN, errN = svc.VerifyBearerTokenMessage(m)
+				if errN == nil {
+					errN = svc.verifyBearerTokenAgainstRequest(btN, c2, o2, s2)
+				}
+			}) {
+				break
+			}
+			okN, whyN := vf30RefBearer(m, w.epoch, c2, o2, s2)
+			key := fmt.Sprintf("honoured-invalid|bearer|%s|re-presented|first-time=%s|%s", whyN, first, vf30Word(ticked, "after-epoch-tick", "same-epoch"))
+			vf30LifeVerdict(r, "bearer", key, fmt.Sprintf("%s|%s|%d", first, how, int64(w.epoch)-vf30Epoch), errN, okN, whyN, first, d2)
 		}
 		setEpoch(vf30Epoch)
 	}
